@@ -11,6 +11,7 @@ import ast
 import builtins as _b
 import re
 import sys
+import threading
 
 from .model import AnalysisError, src
 
@@ -31,6 +32,141 @@ class Obj(object):
 
     def __repr__(self):
         return '<%s %s>' % (self.cls, ','.join('%s=%r' % kv for kv in sorted(self.attrs.items(), key=lambda kv: kv[0]) if kv[0] in ('op', 'id', 'value', 'ctx')))
+
+    # Instances of repository classes that define __eq__ / __hash__ (the keys of the hoisting table) behave accordingly when the interpreted
+    # program uses them as dictionary keys or compares them; everything else compares by identity.
+    def _special(self, name):
+        I = Interp.current
+        if I is None or I.model is None or self.qual is None:
+            return None
+        fi = I.model.method(self.qual, name)
+        if fi is None:
+            return None
+        owner = [k for k in I.model.mro(self.qual) if I.model.funcs.get(k + '.' + name) is fi]
+        return I, Closure(fi.node, {}, I, self_obj=self, cls=owner[0] if owner else self.qual)
+
+    def __eq__(self, other):
+        if self is other:
+            return True
+        sp = self._special('__eq__')
+        if sp is None:
+            return False
+        r = sp[0].call_closure(sp[1], [other], {})
+        return False if r is TOP else bool(r)
+
+    def __ne__(self, other):
+        return not self.__eq__(other)
+
+    def __hash__(self):
+        sp = self._special('__hash__')
+        if sp is None:
+            return id(self) >> 4
+        r = sp[0].call_closure(sp[1], [], {})
+        return r if isinstance(r, int) else id(self) >> 4
+
+
+import itertools as _itertools
+import keyword as _keyword
+import math as _math
+import string as _string
+
+PURE_MODULES = {'string': _string, 'itertools': _itertools, 'keyword': _keyword, 'math': _math}
+
+
+class _GenClose(BaseException):
+    pass
+
+
+threading.stack_size(128 * 1024 * 1024)
+
+
+class LazyGen(object):
+    """A generator object of the interpreted program. The body runs in its own thread, strictly alternating with the consumer (one of them
+    is always blocked), so that the code before the first `yield` and between two yields runs exactly when the consumer asks for the next
+    element - side effects of a generator interleave with those of its consumer as they do in CPython."""
+
+    def __init__(self, interp, runner, label=''):
+        self.interp = interp
+        self.runner = runner
+        self.label = label
+        self.thread = None
+        self.done = False
+        self.closing = False
+        self.to_gen = threading.Semaphore(0)
+        self.to_consumer = threading.Semaphore(0)
+        self.box = None
+        self.state = None      # (module, depth) of the generator while it is suspended
+
+    def __iter__(self):
+        return self
+
+    def __next__(self):
+        if self.done:
+            raise StopIteration
+        I = self.interp
+        consumer_state = (I.module, I.depth)
+        if self.thread is None:
+            self.thread = threading.Thread(target=self._main, daemon=True)
+            self.thread.start()
+        else:
+            I.module, I.depth = self.state
+            self.to_gen.release()
+        self.to_consumer.acquire()
+        I.module, I.depth = consumer_state
+        kind = self.box[0]
+        if kind == 'yield':
+            return self.box[1]
+        self.done = True
+        if kind == 'exc':
+            raise self.box[1]
+        raise StopIteration
+
+    next = __next__
+
+    def _main(self):
+        try:
+            self.runner(self)
+            self.box = ('done',)
+        except _GenClose:
+            self.box = ('done',)
+        except BaseException as e:   # _Raise, _Abort, AnalysisError ...: delivered to the consumer
+            self.box = ('exc', e)
+        self.to_consumer.release()
+
+    def yield_(self, v):
+        I = self.interp
+        self.state = (I.module, I.depth)
+        self.box = ('yield', v)
+        self.to_consumer.release()
+        self.to_gen.acquire()
+        if self.closing:
+            raise _GenClose()
+
+    def close(self):
+        if self.thread is not None and not self.done:
+            self.closing = True
+            self.done = True
+            self.to_gen.release()
+            self.to_consumer.acquire()
+
+    def __del__(self):
+        try:
+            self.close()
+        except Exception:
+            pass
+
+    def __repr__(self):
+        return '<generator %s>' % self.label
+
+
+class OneShot(list):
+    """The elements a generator / filter / map / zip object still has to deliver. The elements are computed eagerly, but the object can be
+    consumed only once: iterating it (for, list(), sorted(), unpacking, `in`) empties it, as with the real lazy iterators of Python 3."""
+
+    def take(self):
+        items = list(self)
+        del self[:]
+        return items
 
 
 class PyCallable(object):
@@ -70,6 +206,9 @@ class Closure(object):
         if module is None and interp is not None and interp.model is not None:
             fi = interp.model.func_of_node(node) if not isinstance(node, ast.Lambda) else None
             self.module = fi.module if fi is not None else interp.module
+
+
+_MISSING = object()
 
 
 class _Return(Exception):
@@ -133,11 +272,16 @@ class Interp(object):
         self.max_depth = max_depth
         self.globals = {}
         self._modvars = {}
+        self._dyn_members = {}
+        self._module_scope = {}
         self.trace = False
 
     # ------------------------------------------------------------------ path exploration
+    current = None    # the interpreter that is evaluating right now (used by Obj.__eq__ / __hash__)
+
     def explore(self, thunk):
         """Run thunk() over every resolution of TOP decisions. Returns list of (outcome, events, unknown)."""
+        Interp.current = self
         results = []
         pending = [[]]
         n = 0
@@ -235,10 +379,14 @@ class Interp(object):
         if self.model is not None and self.module is not None:
             v = self.model.module_assigns.get(self.module, {}).get(e.id)
             if v is not None:
-                try:
-                    return self.ev(v, {})
-                except Exception:
-                    return TOP
+                # a module-level variable is one object for the life of the process (= of this interpreter instance)
+                key = (self.module, e.id)
+                if key not in self._modvars:
+                    try:
+                        self._modvars[key] = self.ev(v, {})
+                    except Exception:
+                        self._modvars[key] = TOP
+                return self._modvars[key]
             q = self.model.resolve_name(self.module, e.id)
             if q in self.model.classes:
                 return ClassRef(q.rsplit('.', 1)[1], q if not q.startswith('python_minifier.ast_compat.') else None)
@@ -287,6 +435,23 @@ class Interp(object):
     def ev_Attribute(self, e, env):
         if isinstance(e.value, ast.Name):
             base = e.value.id
+            if base not in env and base not in self.globals and base in PURE_MODULES and \
+                    (self.model is None or self.module is None or self.model.imports.get(self.module, {}).get(base, base) == base):
+                # side-effect free modules of the standard library: constants are read, functions are called on determined arguments
+                try:
+                    val = getattr(PURE_MODULES[base], e.attr)
+                except AttributeError:
+                    raise _Raise('AttributeError:' + e.attr)
+                if callable(val):
+                    def call(I_, a, kw, _f=val, _n=base + '.' + e.attr):
+                        if any(x is TOP or isinstance(x, Obj) for x in a) or any(x is TOP or isinstance(x, Obj) for x in kw.values()):
+                            return TOP
+                        try:
+                            return _f(*[I_.materialise(x) for x in a], **kw)
+                        except Exception as ex:
+                            raise _Raise(type(ex).__name__)
+                    return PyCallable(call, base + '.' + e.attr)
+                return val
             if base not in env:
                 if self.model is not None and self.module is not None and self.model.is_ast_alias(self.module, base):
                     return ClassRef(e.attr)
@@ -320,25 +485,18 @@ class Interp(object):
             if attr == '__class__':
                 return ClassRef(v.cls)
             if attr in v.attrs:
+                cb = v.attrs.get('__on_read__')
+                if cb is not None:
+                    cb(v, attr)
                 return v.attrs[attr]
             if v.cls == 'Constant' and attr in ('n', 's') and 'value' in v.attrs:
                 return v.attrs['value']  # ast_compat adds n/s aliases to Constant
             if attr == '_fields' and v.qual is None and getattr(ast, v.cls, None) is not None:
                 return tuple(getattr(ast, v.cls)._fields)
-            # methods of repository classes
-            if self.model is not None:
-                for cq in ([v.qual] if v.qual else self._classes_named(v.cls)):
-                    if cq.rsplit('.', 1)[1] == v.cls:
-                        fi = self.model.method(cq, attr)
-                        if fi is not None:
-                            is_prop = any(isinstance(d, ast.Name) and d.id == 'property' for d in fi.node.decorator_list)
-                            clo = Closure(fi.node, {}, self, self_obj=v, cls=cq)
-                            if is_prop:
-                                return self.call_closure(clo, [], {})
-                            return clo
-                        found, val = self._class_attr(cq, attr)
-                        if found:
-                            return val
+            # members of repository classes: methods, properties, class-level attributes, members installed by factories / setattr
+            m = self.member(v, attr)
+            if m is not _MISSING:
+                return m
             if v.closed:
                 raise _Raise('AttributeError:' + attr)
             return TOP
@@ -362,13 +520,57 @@ class Interp(object):
             return Closure(fi.node, {}, self, self_obj=v[1], cls=[k for k in self.model.mro(v[2]) if self.model.funcs.get(k + '.' + attr) is fi][0])
         if isinstance(v, tuple) and attr in ('major', 'minor') and len(v) >= 2:
             return v[0] if attr == 'major' else v[1]
-        if isinstance(v, (str, bytes, list, dict, tuple, set, int, float, complex, re.Match)):
+        if isinstance(v, (str, bytes, list, dict, tuple, set, int, float, complex, re.Match, re.Pattern)):
             try:
                 m = getattr(v, attr)
             except AttributeError:
                 raise _Raise('AttributeError:' + attr)
             return ('pymethod', v, attr)
         return TOP
+
+    def member(self, v, attr):
+        """Value of attribute `attr` that instance v gets from its (repository) class, or _MISSING."""
+        if self.model is None:
+            return _MISSING
+        for cq in ([v.qual] if v.qual else self._classes_named(v.cls)):
+            if cq.rsplit('.', 1)[1] == v.cls:
+                fi = self.model.method(cq, attr)
+                if fi is not None:
+                    is_prop = any(isinstance(d, ast.Name) and d.id == 'property' for d in fi.node.decorator_list)
+                    clo = Closure(fi.node, {}, self, self_obj=v, cls=cq)
+                    if is_prop:
+                        return self.call_closure(clo, [], {})
+                    return clo
+                found, val = self._class_attr(cq, attr)
+                if found:
+                    if isinstance(val, Closure) and val.self_obj is None:
+                        # a function stored in the class (built by a factory, or installed with setattr) is a method
+                        return Closure(val.node, val.env, self, self_obj=v, cls=cq, module=val.module)
+                    return val
+        return _MISSING
+
+    def _run_module_installers(self, module):
+        """Top-level statements of a module that install attributes on classes (`setattr(Cls, 'visit_' + name, factory(...))`, usually in a loop)
+        are executed once, so that the members they create are found by attribute lookup."""
+        done = self.__dict__.setdefault('_installers_done', set())
+        if module in done or self.model is None:
+            return
+        done.add(module)
+        rel = self.model.modules.get(module)
+        tree = self.model.trees.get(rel) if rel else None
+        if tree is None:
+            return
+        old = self.module
+        self.module = module
+        try:
+            for st in tree.body:
+                if isinstance(st, (ast.For, ast.Expr, ast.If)) and any(isinstance(n, ast.Call) and isinstance(n.func, ast.Name) and n.func.id == 'setattr' for n in ast.walk(st)):
+                    try:
+                        self.stmt(st, self._module_scope.setdefault(module, {}))
+                    except (_Raise, _Abort, _Return):
+                        pass
+        finally:
+            self.module = old
 
     def _class_attr(self, cq, attr):
         """(found, value) of a class-level assignment `attr = <expr>` in the class body of cq or of one of its bases."""
@@ -381,6 +583,10 @@ class Interp(object):
             ci = self.model.classes.get(k)
             if ci is None:
                 continue
+            self._run_module_installers(ci.module)
+            if (k, attr) in self._dyn_members:
+                res = (True, self._dyn_members[(k, attr)])
+                break
             hit = None
             for st in ci.node.body:
                 if isinstance(st, ast.Assign) and any(isinstance(t, ast.Name) and t.id == attr for t in st.targets):
@@ -490,8 +696,14 @@ class Interp(object):
             elif type(a) is not type(b):
                 r = False
             else:
-                # identity of equal immutable values (small ints, interned strings) is interpreter specific: only True/False/None are decided
-                r = a is b if (a is b and isinstance(a, (bool, type(None)))) else (TOP if a == b else False)
+                # identity of equal immutable values (small ints, interned strings) is interpreter specific: decided for True/False/None, and for
+                # a string / tuple object that is the very same object on both sides (a module-level sentinel that flowed to both places)
+                if a is b and isinstance(a, (bool, type(None))):
+                    r = True
+                elif a is b and isinstance(a, (str, tuple, bytes)) and len(a) > 1:
+                    r = True
+                else:
+                    r = TOP if a == b else False
             if r is TOP:
                 return TOP
             return r if isinstance(op, ast.Is) else (not r)
@@ -525,9 +737,9 @@ class Interp(object):
             return TOP
         if isinstance(a, Obj) or isinstance(b, Obj):
             if isinstance(op, ast.Eq):
-                return a is b
+                return a == b if isinstance(a, Obj) else b == a      # identity unless the repository class defines __eq__
             if isinstance(op, ast.NotEq):
-                return a is not b
+                return not (a == b if isinstance(a, Obj) else b == a)
             return TOP
         try:
             return self._CMP[type(op)](a, b)
@@ -537,7 +749,7 @@ class Interp(object):
     @staticmethod
     def py_eq(a, b):
         if isinstance(a, Obj) or isinstance(b, Obj):
-            return a is b
+            return a is b or (a == b if isinstance(a, Obj) else b == a)
         try:
             return a is b or a == b
         except Exception:
@@ -572,23 +784,27 @@ class Interp(object):
 
     def ev_Yield(self, e, env):
         v = self.ev(e.value, env) if e.value is not None else None
-        if '__yields__' not in env:
+        g = env.get('__gen__')
+        if g is None:
             raise _Abort('yield outside an interpreted generator')
-        env['__yields__'].append(v)
+        g.yield_(v)
         return None
 
     def ev_YieldFrom(self, e, env):
         v = self.ev(e.value, env)
-        if '__yields__' not in env or v is TOP:
+        g = env.get('__gen__')
+        if g is None or v is TOP:
             raise _Abort('yield from unknown')
-        env['__yields__'].extend(self.iterate(v))
+        for item in self.lazily(v):
+            g.yield_(item)
         return None
 
     def ev_Lambda(self, e, env):
         return Closure(e, dict(env), self)
 
     def ev_GeneratorExp(self, e, env):
-        return self._comp(e, env, [e.elt])
+        r = self._comp(e, env, [e.elt])
+        return OneShot(r) if isinstance(r, list) else r
 
     def ev_ListComp(self, e, env):
         return self._comp(e, env, [e.elt])
@@ -615,7 +831,26 @@ class Interp(object):
             return TOP
         return out
 
+    def materialise(self, v):
+        if isinstance(v, LazyGen):
+            return list(v)
+        if isinstance(v, OneShot):
+            return v.take()
+        return v
+
+    def lazily(self, it):
+        """A Python iterator over the elements of an interpreted iterable; generator objects are advanced one element at a time."""
+        if isinstance(it, LazyGen):
+            return it
+        if hasattr(it, '__next__') and not isinstance(it, (Obj, OneShot)):
+            return it       # an iterator object of the standard library (itertools.count(), itertools.product(...))
+        return iter(self.iterate(it))
+
     def iterate(self, it):
+        if isinstance(it, LazyGen):
+            return list(it)
+        if isinstance(it, OneShot):
+            return it.take()
         if isinstance(it, dict):
             return list(it.keys())
         if isinstance(it, (type({}.values()), type({}.keys()), type({}.items()))):
@@ -691,6 +926,16 @@ class Interp(object):
                 return r
         if ftext in ('sys.exit', 'exit', 'quit'):
             raise _Exit(args[0] if args else 0)
+        if ftext in ('copy.deepcopy', 'copy.copy', 'deepcopy') and 'copy' not in env and args:
+            return self.deep_copy(args[0], {}) if ftext != 'copy.copy' else self.shallow_copy(args[0])
+        if ftext.startswith('re.') and ftext[3:] in ('compile', 'match', 'search', 'fullmatch', 'sub', 'subn', 'split', 'findall', 'escape') and 're' not in env:
+            # the regular expression engine of the standard library, on determined arguments only
+            if any(a is TOP or isinstance(a, Obj) for a in args) or any(v is TOP or isinstance(v, Obj) for v in kwargs.values()):
+                return TOP
+            try:
+                return getattr(re, ftext[3:])(*args, **kwargs)
+            except Exception as ex:
+                raise _Raise(type(ex).__name__)
         if isinstance(e.func, ast.Name):
             name = e.func.id
             if name in env and isinstance(env[name], Closure):
@@ -818,13 +1063,13 @@ class Interp(object):
             elif p in kwargs:
                 env[p] = kwargs[p]
             elif p in defaults:
-                env[p] = self.ev(defaults[p], clo.env)
+                env[p] = self.default_value(clo, defaults[p])
             else:
                 env[p] = TOP
         if a.vararg:
             env[a.vararg.arg] = tuple(vals[len(pos):])
         for p, d in zip(a.kwonlyargs, a.kw_defaults):
-            env[p.arg] = kwargs.get(p.arg, self.ev(d, clo.env) if d is not None else TOP)
+            env[p.arg] = kwargs[p.arg] if p.arg in kwargs else (self.default_value(clo, d) if d is not None else TOP)
         if a.kwarg:
             env[a.kwarg.arg] = {k: v for k, v in kwargs.items() if k not in pos}
         env['__class_ctx__'] = clo.cls
@@ -835,17 +1080,80 @@ class Interp(object):
         try:
             if isinstance(node, ast.Lambda):
                 return self.ev(node.body, env)
-            is_gen = _is_generator(node)
-            if is_gen:
-                env['__yields__'] = []
+            if _is_generator(node):
+                gen_module = self.module
+                gen_depth = self.depth
+
+                def runner(g, _env=env, _node=node):
+                    _env['__gen__'] = g
+                    self.module, self.depth = gen_module, gen_depth
+                    try:
+                        self.block(_node.body, _env)
+                    except _Return:
+                        pass
+                return LazyGen(self, runner, getattr(node, 'name', 'lambda'))
+            env['__gen__'] = None
             try:
                 self.block(node.body, env)
             except _Return as r:
-                return env['__yields__'] if is_gen else r.value
-            return env['__yields__'] if is_gen else None
+                return r.value
+            return None
         finally:
             self.depth -= 1
             self.module = old_module
+
+    def shallow_copy(self, v):
+        if isinstance(v, Obj):
+            o = Obj(v.cls, closed=v.closed)
+            o.qual = v.qual
+            o.attrs = dict(v.attrs)
+            return o
+        if isinstance(v, (list, dict, set)):
+            return type(v)(v)
+        return v
+
+    def deep_copy(self, v, memo):
+        """copy.deepcopy over descriptor graphs (cycles through parent / namespace links are followed with a memo, as the real one does)."""
+        if v is TOP or isinstance(v, (str, bytes, int, float, complex, bool, type(None), type(Ellipsis), ClassRef, Closure)):
+            return v
+        k = id(v)
+        if k in memo:
+            return memo[k]
+        if isinstance(v, Obj):
+            o = Obj(v.cls, closed=v.closed)
+            o.qual = v.qual
+            memo[k] = o
+            for a, x in v.attrs.items():
+                o.attrs[a] = x if a in ('_real', '__on_read__') else self.deep_copy(x, memo)
+            return o
+        if isinstance(v, list):
+            out = type(v)() if type(v) is not list else []
+            memo[k] = out
+            out.extend(self.deep_copy(x, memo) for x in v)
+            return out
+        if isinstance(v, tuple):
+            return tuple(self.deep_copy(x, memo) for x in v)
+        if isinstance(v, set):
+            return set(self.deep_copy(x, memo) for x in v)
+        if isinstance(v, dict):
+            out = {}
+            memo[k] = out
+            for a, x in v.items():
+                out[self.deep_copy(a, memo)] = self.deep_copy(x, memo)
+            return out
+        return v
+
+    def default_value(self, clo, d):
+        """Default expressions are evaluated once, when the function is defined: a mutable default is one object shared by every call
+        (for the lifetime of this interpreter instance, which stands for one process)."""
+        cache = self.__dict__.setdefault('_default_values', {})
+        key = (id(d), id(clo.env) if clo.env else 0)
+        if key not in cache:
+            if not hasattr(self, '_default_keep'):
+                self._default_keep = []
+            self._default_keep.append((d, clo.env))
+            cache[key] = self.ev(d, clo.env)
+        return cache[key]
 
     def call_method(self, cls_qual, name, self_obj, args, kwargs=None):
         fi = self.model.method(cls_qual, name)
@@ -910,6 +1218,8 @@ class Interp(object):
         if isinstance(o, Obj):
             if name in o.attrs:
                 return True
+            if isinstance(name, str) and self.model is not None and (o.qual is not None or bool(self._classes_named(o.cls))) and self.member(o, name) is not _MISSING:
+                return True
             fields = getattr(getattr(ast, o.cls, None), '_fields', None)
             if fields is not None:
                 return name in fields
@@ -917,25 +1227,35 @@ class Interp(object):
         return hasattr(o, name)
 
     def builtin_getattr(self, args, kwargs, e, env):
-        if len(args) >= 2 and isinstance(args[0], Obj) and isinstance(args[1], str) and args[1] not in args[0].attrs and self.model is not None and \
-                any(cq.rsplit('.', 1)[1] == args[0].cls for cq in self.model.classes):
-            # object of a repository class: its methods are known
-            for cq in ([args[0].qual] if args[0].qual else list(self.model.classes)):
-                if cq.rsplit('.', 1)[1] == args[0].cls:
-                    fi = self.model.method(cq, args[1])
-                    if fi is not None:
-                        return Closure(fi.node, {}, self, self_obj=args[0], cls=cq)
+        a0 = e.args[0] if e is not None and getattr(e, 'args', None) else None
+        if isinstance(a0, ast.Name) and a0.id not in env and len(args) >= 2 and isinstance(args[1], str) and \
+                (a0.id == 'ast' or (self.model is not None and self.module is not None and self.model.is_ast_alias(self.module, a0.id))):
+            # getattr(ast, 'ClassName'[, default]): the node classes of this interpreter plus the compatibility classes of the package
+            known = hasattr(ast, args[1]) or (self.model is not None and ('python_minifier.ast_compat.' + args[1]) in self.model.classes)
+            if known:
+                return ClassRef(args[1])
             if len(args) == 3:
                 return args[2]
             raise _Raise('AttributeError:' + args[1])
         if len(args) >= 2 and isinstance(args[0], Obj) and isinstance(args[1], str):
-            if args[1] in args[0].attrs:
-                return args[0].attrs[args[1]]
-            fields = getattr(getattr(ast, args[0].cls, None), '_fields', None)
-            if fields is not None and args[1] not in fields and len(args) == 3:
+            o, name = args[0], args[1]
+            if name in o.attrs:
+                return o.attrs[name]
+            is_repo = self.model is not None and (o.qual is not None or bool(self._classes_named(o.cls)))
+            if is_repo:
+                m = self.member(o, name)
+                if m is not _MISSING:
+                    return m
+                if len(args) == 3:
+                    return args[2]
+                raise _Raise('AttributeError:' + name)
+            fields = getattr(getattr(ast, o.cls, None), '_fields', None)
+            if fields is not None and name not in fields and len(args) == 3:
                 return args[2]
-            if len(args) == 3 and args[0].closed:
-                return args[2]
+            if o.closed:
+                if len(args) == 3:
+                    return args[2]
+                raise _Raise('AttributeError:' + name)
         return TOP
 
     def builtin_setattr(self, args, kwargs, e, env):
@@ -943,7 +1263,23 @@ class Interp(object):
         if isinstance(o, Obj) and isinstance(name, str):
             o.attrs[name] = value
             return None
+        if isinstance(o, ClassRef) and o.qual is not None and isinstance(name, str):
+            self._dyn_members[(o.qual, name)] = value
+            self.__dict__.get('_class_attrs', {}).pop((o.qual, name), None)
+            return None
         return TOP
+
+    def builtin_hash(self, args, kwargs, e, env):
+        v = args[0]
+        if v is TOP:
+            return TOP
+        try:
+            return hash(v)     # Obj delegates to the class's own __hash__ when there is one
+        except TypeError:
+            raise _Raise('TypeError')
+
+    def builtin_object(self, args, kwargs, e, env):
+        return Obj('object', closed=True)
 
     def builtin_delattr(self, args, kwargs, e, env):
         o, name = args
@@ -953,10 +1289,12 @@ class Interp(object):
         return TOP
 
     def builtin_min(self, args, kwargs, e, env):
-        v = args[0] if len(args) == 1 else list(args)
+        v = self.materialise(args[0]) if len(args) == 1 else list(args)
         if v is TOP or any(x is TOP for x in v):
             return TOP
         v = list(self.iterate(v))
+        if set(kwargs) - {'key'}:
+            return TOP
         if 'key' in kwargs:
             k = kwargs['key']
             if k is len:
@@ -975,13 +1313,29 @@ class Interp(object):
         return min(v)
 
     def builtin_max(self, args, kwargs, e, env):
-        v = args[0] if len(args) == 1 else list(args)
+        v = self.materialise(args[0]) if len(args) == 1 else list(args)
         if v is TOP or any(x is TOP for x in v):
             return TOP
-        return max(v)
+        if kwargs:
+            k = kwargs.get('key')
+            if set(kwargs) - {'key'} or not (k is len or isinstance(k, Closure)):
+                return TOP
+            v = list(self.iterate(v))
+            keys = [len(x) if k is len else self.call_closure(k, [x], {}) for x in v]
+            if any(x is TOP for x in keys):
+                return TOP
+            if not v:
+                raise _Raise('ValueError')
+            return v[keys.index(max(keys))]
+        try:
+            return max(v)
+        except ValueError:
+            raise _Raise('ValueError')
+        except TypeError:
+            return TOP
 
     def builtin_any(self, args, kwargs, e, env):
-        v = args[0]
+        v = self.materialise(args[0])
         if v is TOP:
             return TOP
         unknown = False
@@ -993,7 +1347,7 @@ class Interp(object):
         return TOP if unknown else False
 
     def builtin_all(self, args, kwargs, e, env):
-        v = args[0]
+        v = self.materialise(args[0])
         if v is TOP:
             return TOP
         unknown = False
@@ -1031,13 +1385,16 @@ class Interp(object):
             v = self.call_closure(f, [x], {}) if isinstance(f, Closure) else (x if f is None else TOP)
             if self.decide(v):
                 out.append(x)
-        return out
+        return OneShot(out) if self.version >= (3,) else out
 
     def builtin_map(self, args, kwargs, e, env):
+        if len(args) != 2 or kwargs:
+            return TOP
         f, it = args[0], args[1]
         if it is TOP or not isinstance(f, Closure):
             return TOP
-        return [self.call_closure(f, [x], {}) for x in self.iterate(it)]
+        r = [self.call_closure(f, [x], {}) for x in self.iterate(it)]
+        return OneShot(r) if self.version >= (3,) else r
 
     def builtin_list(self, args, kwargs, e, env):
         if not args:
@@ -1047,14 +1404,43 @@ class Interp(object):
         return list(self.iterate(args[0]))
 
     def builtin_zip(self, args, kwargs, e, env):
-        if any(a is TOP or isinstance(a, Obj) for a in args):
+        if kwargs or any(a is TOP or isinstance(a, Obj) for a in args):
             return TOP
-        return list(zip(*args))
+        r = list(zip(*[self.iterate(a) for a in args]))
+        return OneShot(r) if self.version >= (3,) else r
+
+    def builtin_next(self, args, kwargs, e, env):
+        it = args[0]
+        if it is TOP or isinstance(it, Obj):
+            return TOP
+        try:
+            if isinstance(it, OneShot):
+                if not it:
+                    raise StopIteration
+                return it.pop(0)
+            return next(it)
+        except StopIteration:
+            if len(args) > 1:
+                return args[1]
+            raise _Raise('StopIteration')
+        except TypeError:
+            raise _Raise('TypeError')
+
+    def builtin_iter(self, args, kwargs, e, env):
+        it = args[0]
+        if it is TOP or isinstance(it, Obj):
+            return TOP
+        if isinstance(it, (LazyGen, OneShot)):
+            return it
+        return OneShot(self.iterate(it))
 
     def builtin_enumerate(self, args, kwargs, e, env):
         if args[0] is TOP:
             return TOP
-        return list(enumerate(args[0]))
+        start = kwargs.get('start', args[1] if len(args) > 1 else 0)
+        if not isinstance(start, int) or set(kwargs) - {'start'} or len(args) > 2:
+            raise _Abort('enumerate() with undetermined arguments')
+        return list(enumerate(self.iterate(args[0]), start))
 
     def builtin_range(self, args, kwargs, e, env):
         if any(a is TOP for a in args):
@@ -1062,12 +1448,28 @@ class Interp(object):
         return list(range(*args))
 
     def builtin_sorted(self, args, kwargs, e, env):
-        if args[0] is TOP or kwargs:
+        if args[0] is TOP or isinstance(args[0], Obj) or set(kwargs) - {'key', 'reverse'}:
+            return TOP
+        items = list(self.iterate(args[0]))
+        rev = kwargs.get('reverse', False)
+        if rev is TOP:
+            return TOP
+        k = kwargs.get('key')
+        if k is None:
+            keys = items
+        elif k is len:
+            keys = [len(x) for x in items]
+        elif isinstance(k, (Closure, PyCallable)):
+            keys = [self.call_closure(k, [x], {}) if isinstance(k, Closure) else k.fn(self, [x], {}) for x in items]
+        else:
+            return TOP
+        if any(x is TOP or isinstance(x, Obj) for x in keys):
             return TOP
         try:
-            return sorted(args[0])
-        except Exception:
-            return TOP
+            order = sorted(range(len(items)), key=lambda i_: keys[i_], reverse=bool(rev))   # stable, like the real one
+        except TypeError:
+            raise _Raise('TypeError')
+        return [items[i_] for i_ in order]
 
     def builtin_hex(self, args, kwargs, e, env):
         return TOP if args[0] is TOP else hex(args[0])
@@ -1083,8 +1485,11 @@ class Interp(object):
             if isinstance(m, Closure):
                 return self.call_closure(m, [], {})
             return TOP
+        if len(args) > 1 or kwargs:
+            if any(a is TOP or isinstance(a, Obj) for a in args) or any(a is TOP or isinstance(a, Obj) for a in kwargs.values()):
+                return TOP
         try:
-            return str(v)
+            return str(*args, **kwargs)
         except Exception as ex:
             raise _Raise(type(ex).__name__)
 
@@ -1142,12 +1547,12 @@ class Interp(object):
             if it is TOP or isinstance(it, Obj):
                 raise _Abort('loop over unknown iterable ' + src(s.iter))
             broke = False
-            for item in self.iterate(it):
+            for item in self.lazily(it):
                 self.bind(s.target, item, env)
                 try:
                     self.block(s.body, env)
                 except _Break:
-                    broke = True
+                    broke = True     # a generator left by `break` stays suspended and can be resumed later
                     break
                 except _Continue:
                     continue
@@ -1157,7 +1562,7 @@ class Interp(object):
             n = 0
             while self.decide(self.ev(s.test, env)):
                 n += 1
-                if n > 200:
+                if n > 200000:
                     raise _Abort('while loop bound')
                 try:
                     self.block(s.body, env)
